@@ -51,6 +51,7 @@ fn eval(ast: &Node, flags: Flags, hays: &[(Hay, Vec<u16>, Vec<usize>)], known: &
         return;
     }
     let pat = print::print(ast);
+    crate::subject::set_case_desc(format!("/{}/{} (C14)", print::show(&pat), flags.to_string()));
     let CompileOutcome::Ok(re) = subject::compile(&pat, flags, false) else { return };
     st.add("patterns_evaluated", 1);
     for (hay, units, uoffs) in hays {
